@@ -356,9 +356,15 @@ func runCase(cs *caseT) ([]map[string]interface{}, error) {
 			_, err := cl.Status(arg, &imap.StatusOptions{NumMessages: true}).Wait()
 			done <- statusOf(err)
 		case "APPEND":
-			size := map[string]int{"small": 10, "at": 4096, "over": 4097}[cs.Case.Class]
+			chunks := map[string][]int{"small": {10}, "at": {4096}, "over": {4097}, "split": {3, 7}, "bigsplit": {16, 6000}}[cs.Case.Class]
+			size := 0
+			for _, n := range chunks {
+				size += n
+			}
 			cmd := cl.Append("mb", int64(size), nil)
-			cmd.Write([]byte(strings.Repeat("x", size)))
+			for _, n := range chunks {
+				cmd.Write([]byte(strings.Repeat("x", n))) // errors are looked at when the literal is closed
+			}
 			cmd.Close()
 			_, err := cmd.Wait()
 			done <- statusOf(err)
